@@ -31,6 +31,7 @@ def cfg_for(rng, k):
     c.p_import_chain = 0.5
     c.p_transitive_ref = 0.5
     c.p_shared_as_name = 0.4
+    c.p_subdir = 0.4
     c.extensible = k % 3 != 0
     return c
 
@@ -209,6 +210,15 @@ def worker(ctx):
                     res.count("feature:" + feat)
             if any(g.basename != g.proto_name for g in files):
                 res.count("feature:file_name_differs_from_proto_name")
+            if any(g.subdir for g in files):
+                res.count("feature:imported_file_in_subdirectory")
+            if any(h.imports for g in files if g is not root for h in [g]):
+                res.count("feature:import_chain")
+            direct = {id(i.file) for i in root.imports}
+            if any(id(g) not in direct for g in files if g is not root):
+                res.count("feature:file_reached_only_through_an_import_of_an_import")
+            if any(i.bound_name in {j.bound_name for g in files if g is not root for j in g.imports if j.file is not i.file} for i in root.imports):
+                res.count("feature:bound_name_reused_for_another_file")
             # ---- render everything (no internal error allowed) -------------------------------------
             outs = {"std": os.path.join(top, "std")}
             if trad:
@@ -397,7 +407,9 @@ def worker(ctx):
 if __name__ == "__main__":
     harness.main(
         "C10", "props.C10", worker,
-        rule=("case = composition-heavy generated schema: 0-2 imported files with/without `as`, file names different from proto names, nesting to depth 4, aliases "
+        rule=("case = composition-heavy generated schema: 0-3 imported files with/without `as` (import chains, files reached only as `b.c.M`, a bound name reused "
+              "for another file by an imported file, imported files in subdirectories with relative paths), doc comments drawn from a pool of texts that are special "
+              "in C/Go/Python comments and strings, digit components in field names, file names different from proto names, nesting to depth 4, aliases "
               "and arrays in every position, c.name_prefix / c.struct_packing_alignment / py.module_name / go.package_path, empty messages and enums, type names "
               "ending in digits, a field named `type`, every fifth case the `N`/`N1` array-field pattern; all files rendered for c, py, go in standard mode and "
               "(traditional schemas) -O and -O -F; judged by the real toolchains: gcc -std=c99 -Wall -Werror=implicit-function-declaration per file, link of all "
@@ -408,5 +420,7 @@ if __name__ == "__main__":
         assumptions=["identifiers come from curated pools clear of reserved words; flattened names are distinct by construction",
                      "Go is checked statically by my parser only (no toolchain); Go import PATHS are not judged (a path names a package directory, not a generated file)"],
         required_counters=["c_files_compiled", "c_links", "cxx_builds", "layout_tables_compared", "python_classes_instantiated", "python_methods_executed",
-                           "go_files_checked", "include_targets_checked", "feature:imports", "feature:nested", "feature:file_name_differs_from_proto_name"],
+                           "go_files_checked", "include_targets_checked", "feature:imports", "feature:nested", "feature:file_name_differs_from_proto_name",
+                           "feature:imported_file_in_subdirectory", "feature:import_chain", "feature:file_reached_only_through_an_import_of_an_import",
+                           "feature:bound_name_reused_for_another_file"],
     )
